@@ -259,6 +259,9 @@ impl<RS: ResolveState> Type<RS> {
     pub fn no_optional_mut(&mut self) -> &mut Self {
         if let Self::Optional(inner) = self {
             inner.no_optional_mut()
+        } else if let Self::Default(inner, _) = self {
+            // a DEFAULT component wraps its type just like an OPTIONAL one
+            inner.no_optional_mut()
         } else {
             self
         }
